@@ -158,6 +158,13 @@ def gen(rng, tier):
         yield Case("c20incg", [fb(a), fbl(sorted(set(ulp)))], True, "incgamma-switch")
         r = sorted(rng.uniform(0, 3 * a + 5) for _ in range(40))
         yield Case("c20incg", [fb(a), fbl(r)], True, "incgamma-random")
+    # large shapes, x within a few standard deviations of the shape: the series / continued fraction need about
+    # 6*sqrt(alpha) terms there (an iteration cap or a loosened stop test shows only here)
+    import math
+    for a in [150.0, 300.0, 1000.0, 5000.0, 20000.0] + [10 ** rng.uniform(2, 4.5) for _ in range(2 if quick else 30)]:
+        sd = math.sqrt(a)
+        grid = [a + (j - 20) * 0.25 * sd for j in range(41)]
+        yield Case("c20incg", [fb(a), fbl([x for x in grid if x > 0])], True, "incgamma-large-shape")
     # huge x: one point per case (a hang blocks the whole case)
     for x in ([1e120, 1e150, 1e300] if quick else [1e103, 1e110, 1e120, 1e140, 1e150, 1e154, 1e155, 1e200, 1e300, 1.7976931348623157e308]):
         for a in ([1.0] if quick else [0.5, 1.0, 2.0, 101.0]):
